@@ -381,6 +381,58 @@ def minimise(line, still):
     return mk(ops)
 
 
+POOL = None
+
+
+def extend(line, rng, count=600):
+    """continuations of a history on which implementation and model differ: more insertions/removals/lookups over the
+    same tables and keys, ending with a lookup of every key in every table (judged by the dict oracle alone)"""
+    f = line.split("\t")
+    ops = [o for o in f[2].split(";") if o]
+    impl_of, keys = [], []
+    for op in ops:
+        p = op.split(" ")
+        name = p[0].split(":")[0]
+        if name == "new":
+            impl_of.append(p[0].split(":")[1] if ":" in p[0] else "m")
+        elif name in ("clone", "clonecap"):
+            impl_of.append(impl_of[int(p[1])])
+        elif name in ("cat", "union", "inter"):
+            return []            # result families are decided in gen_line; keep the directed search to plain histories
+        for t in p[1:]:
+            if t.count("/") == 2 and t not in keys:
+                keys.append(t)
+    if not keys or not impl_of:
+        return []
+    line_keys = list(keys)
+    is_set = any(o.split(" ")[0] in ("add", "rem", "con") for o in ops) or all(t in ("s", "ns") for t in impl_of)
+    out = []
+    for _ in range(count):
+        more = []
+        keys = list(line_keys)
+        if POOL is not None:
+            native = any(t.startswith("n") for t in impl_of)
+            for k in POOL.colliding(rng, POOL.strings if native else POOL.stable, rng.choice([2, 4, 6])):
+                if POOL.tok(k) not in keys:
+                    keys.append(POOL.tok(k))
+        for _ in range(rng.choice([4, 8, 16, 30])):
+            o = rng.randrange(len(impl_of))
+            k = rng.choice(keys)
+            x = rng.random()
+            if is_set:
+                more.append((f"add {o} {k}" if x < 0.4 else f"rem {o} {k}" if x < 0.8 else f"con {o} {k}"))
+            elif impl_of[o] in ("m", "r"):
+                more.append((f"set {o} {k} {rng.randint(0, 3)}" if x < 0.4 else f"del {o} {k}" if x < 0.8 else f"get {o} {k}"))
+            else:
+                more.append((f"set {o} {k} {rng.randint(0, 3)}" if x < 0.6 else f"get {o} {k}"))
+        for o in range(len(impl_of)):
+            for k in keys:
+                more.append(f"con {o} {k}" if is_set else f"get {o} {k}")
+            more.append(f"len {o}")
+        out.append("\t".join(f[:2] + [";".join(ops + more)]))
+    return out
+
+
 # ---------------------------------------------------------------- Elk source
 
 def elk_val(spec):
@@ -530,6 +582,8 @@ def run(ctx):
                 "compared; distinct = distinct history")
     ctx.prove("ElkVerif.Props.C17")
     pool = Pool()
+    global POOL
+    POOL = pool
     if ctx.replay:
         inp = json.load(open(ctx.replay))["input"]
         if "line" in inp:
@@ -541,5 +595,5 @@ def run(ctx):
         return
     n = ctx.n(3000, 100000)
     lines = vlib.corpus_lines("C17") + [gen_line(ctx.rng, pool, ctx) for _ in range(n)]
-    vlib.correspond(ctx, lines, oracle=oracle, minimise=minimise, label="HashMap", max_report=2)
+    vlib.correspond(ctx, lines, oracle=oracle, minimise=minimise, label="HashMap", max_report=2, extend=extend)
     run_elk_source(ctx, pool, ctx.n(150, 3000))
